@@ -42,7 +42,7 @@ RUNS = {
 }
 RUNS_C14 = {
     'quick': {'evloop': 700, 'netio': 400, 'http': 200, 'containers': 400},
-    'thorough': {'evloop': 60000, 'netio': 30000, 'http': 10000, 'containers': 100000},
+    'thorough': {'evloop': 14000, 'netio': 8000, 'http': 4000, 'containers': 8000},
 }
 
 
@@ -95,19 +95,22 @@ def engine_exists(name):
     return all(os.path.exists(os.path.join(VERIF, h)) for h in ENGINES[name]['harness'])
 
 
-def build_engine(name, san=True):
+COVFLAGS = ['-fprofile-instr-generate', '-fcoverage-mapping', '-DSIM_COVERAGE']
+
+
+def build_engine(name, san=True, cov=False):
     """Build (if needed) and return the path of the engine binary for REPO's current tree."""
     e = ENGINES[name]
-    san = san and not e.get('nosan')
+    san = san and not e.get('nosan') and not cov
     key = engine_key(name, san)
-    d = os.path.join(BUILD, '%s-%s%s' % (name, key, '' if san else '-plain'))
+    d = os.path.join(BUILD, '%s-%s%s' % (name, key, '-cov' if cov else '' if san else '-plain'))
     exe = os.path.join(d, name)
     if os.path.exists(exe):
         return exe
     tmp = d + '.tmp%d' % os.getpid()
     shutil.rmtree(tmp, ignore_errors=True)
     os.makedirs(tmp)
-    flags = engine_flags(e) + (SAN if san else [])
+    flags = engine_flags(e) + (SAN if san else []) + (COVFLAGS if cov else [])
     inc = ['-I' + os.path.join(REPO, i) for i in e['inc']] + ['-I' + os.path.join(VERIF, 'sim'),
                                                                  '-I' + os.path.join(VERIF, 'models')]
     jobs = []
@@ -151,6 +154,97 @@ def build_engine(name, san=True):
     except OSError:
         shutil.rmtree(tmp, ignore_errors=True)   # somebody else built it meanwhile
     return exe
+
+
+# ---------------------------------------------------------------- coverage of the repository's code (reach)
+def coverage(nseeds):
+    """Line/branch coverage of the repo sources each engine compiles, under the same generators as the checks.
+    Not a check: a measure of reach, written to coverage/ (summary.json, uncovered/<file>.txt)."""
+    covdir = os.path.join(VERIF, 'coverage')
+    raw = os.path.join(BUILD, 'covraw')
+    shutil.rmtree(raw, ignore_errors=True)
+    os.makedirs(raw)
+    shutil.rmtree(os.path.join(covdir, 'uncovered'), ignore_errors=True)
+    os.makedirs(os.path.join(covdir, 'uncovered'))
+    summary = {}
+    jobs = []
+    for prop, engs in sorted(PROP_ENGINES.items()):
+        for eng in engs:
+            if ENGINES[eng].get('nosan') or eng == 'secrets_hw' and False:
+                continue
+            jobs.append((prop, eng))
+    exes = {eng: build_engine(eng, cov=True) for eng in sorted(set(e for _, e in jobs))}
+
+    def run(job):
+        prop, eng = job
+        n = max(20, nseeds // 40) if prop == 'C14' else (max(50, nseeds // 10) if eng == 'entropy' else nseeds)
+        env = dict(os.environ, LLVM_PROFILE_FILE=os.path.join(raw, 'zygote-%s-%s.profraw' % (eng, prop)),
+                   SIM_COV_PREFIX=os.path.join(raw, '%s-%s' % (eng, prop)), ASAN_OPTIONS='symbolize=0')
+        subprocess.run([exes[eng], '--prop', prop, '--batch', '1', str(n), os.path.join(raw, 'b-%s-%s' % (eng, prop))],
+                       env=env, capture_output=True, text=True, timeout=7200)
+        return job
+
+    with cf.ThreadPoolExecutor(max_workers=NWORK) as ex:
+        list(ex.map(run, jobs))
+    for eng, exe in exes.items():
+        profs = [os.path.join(raw, f) for f in os.listdir(raw) if f.startswith(eng + '-') and f.endswith('.profraw')]
+        if not profs:
+            continue
+        pd = os.path.join(raw, eng + '.profdata')
+        lst = os.path.join(raw, eng + '.list')
+        with open(lst, 'w') as f:
+            f.write('\n'.join(profs) + '\n')
+        subprocess.run(['llvm-profdata-14', 'merge', '-o', pd, '--input-files=' + lst, '--num-threads=8'], check=True)
+        for f in profs:
+            os.unlink(f)
+        srcs = [os.path.join(REPO, s) for s in ENGINES[eng]['repo']]
+        hdrs = []
+        for d in ENGINES[eng]['inc']:
+            dd = os.path.join(REPO, d)
+            if d != '.' and os.path.isdir(dd):
+                hdrs += [os.path.join(dd, f) for f in sorted(os.listdir(dd)) if f.endswith('.h')]
+        r = subprocess.run(['llvm-cov-14', 'export', '-summary-only', '-instr-profile=' + pd, exe] + srcs + hdrs,
+                           capture_output=True, text=True)
+        try:
+            data = json.loads(r.stdout)['data'][0]
+        except Exception:
+            log('llvm-cov export failed for', eng, r.stderr[-500:])
+            continue
+        for f in data['files']:
+            rel = os.path.relpath(f['filename'], REPO)
+            sm = f['summary']
+            if sm['lines']['count'] == 0:
+                continue
+            summary.setdefault(eng, {})[rel] = {
+                'lines': [sm['lines']['covered'], sm['lines']['count']],
+                'branches': [sm['branches']['covered'], sm['branches']['count']],
+                'functions': [sm['functions']['covered'], sm['functions']['count']]}
+        sh = subprocess.run(['llvm-cov-14', 'show', '-instr-profile=' + pd, exe, '-show-line-counts-or-regions',
+                             '-show-branches=count'] + srcs + hdrs, capture_output=True, text=True).stdout
+        cur, out = None, {}
+        for line in sh.splitlines():
+            m = re.match(r'^(/\S+):$', line)
+            if m:
+                cur = os.path.relpath(m.group(1), REPO)
+                continue
+            m = re.match(r'^\s*(\d+)\|\s*0\|(.*)$', line)
+            if m and cur:
+                out.setdefault(cur, []).append('%5s: %s' % (m.group(1), m.group(2)))
+            elif cur and re.search(r'Branch \(\d+:\d+\): \[(True: 0|.*False: 0)', line):
+                out.setdefault(cur, []).append('       ' + line.strip())
+        for rel, ls in out.items():
+            fn = os.path.join(covdir, 'uncovered', '%s__%s.txt' % (eng, rel.replace('/', '_')))
+            with open(fn, 'w') as f:
+                f.write('# lines never executed / branch directions never taken in %s by engine %s (%d seeds per property)\n'
+                        % (rel, eng, nseeds))
+                f.write('\n'.join(ls) + '\n')
+    with open(os.path.join(covdir, 'summary.json'), 'w') as f:
+        json.dump({'seeds_per_property': nseeds, 'repo_tree': repo_tree_hash(), 'engines': summary}, f, indent=1, sort_keys=True)
+    for eng in sorted(summary):
+        for rel, v in sorted(summary[eng].items()):
+            print('%-12s %-40s lines %4d/%-4d  branches %4d/%-4d' % (eng, rel, v['lines'][0], v['lines'][1],
+                                                                     v['branches'][0], v['branches'][1]))
+    return 0
 
 
 # ---------------------------------------------------------------- running
@@ -799,6 +893,8 @@ def main():
     if cmd == 'exe':
         print(build_engine(a[1]))
         return 0
+    if cmd == 'cov':
+        return coverage(int(a[1]) if len(a) > 1 else 4000)
     print('unknown command', cmd)
     return 2
 
